@@ -509,6 +509,19 @@ pub fn random_wellformed(rng: &mut Rng, fens: &[String], legal: &[Mv]) -> String
 
 /// Token-level and byte-level mutations of a line (corruption on the GUI->engine channel).
 pub fn mutate_line(line: &str, rng: &mut Rng) -> String {
+    if rng.chance(1, 12) {
+        // a multi-byte character dropped anywhere into the line (inside a FEN rank, a number, a keyword)
+        let chars: Vec<char> = line.chars().collect();
+        let k = rng.usize_below(chars.len() + 1);
+        let c = *rng.pick(&['é', 'ь', '♙', '漢', '\u{a0}', '٣', '🙂']);
+        let mut out: String = chars[..k].iter().collect();
+        out.push(c);
+        if rng.chance(1, 3) {
+            out.push(c);
+        }
+        out.extend(chars[k..].iter());
+        return out;
+    }
     let toks: Vec<&str> = line.trim().split(' ').filter(|t| !t.is_empty()).collect();
     match rng.below(12) {
         0 => {
